@@ -205,7 +205,7 @@ impl Faults {
         rec.class(&format!("proc-{}", fault));
         for j in 1..=k {
             rec.eval();
-            fake.configure(json!({"faults": {(j - 1).to_string(): fault}, "garbage_flavour": GARBAGE_FLAVOURS[(j + pc.arg as usize) % GARBAGE_FLAVOURS.len()]}));
+            fake.configure(json!({"faults": {(j - 1).to_string(): fault}, "garbage_flavour": GARBAGE_FLAVOURS[(j + pc.arg as usize) % GARBAGE_FLAVOURS.len()], "trunc_flavour": (j + pc.arg as usize / 4) % 2}));
             let shared = Shared::new(500);
             let r = run_pc(pc, enc, a, &|| satwrap::factory_with(&shared, &backend));
             if k >= 2 && rec.nontrivial(&(serde_json::to_string(pc).unwrap(), "proc", j, fault)) {
@@ -302,7 +302,7 @@ impl Faults {
         rec.class(&format!("cli-{}", fault));
         for j in 1..=k {
             rec.eval();
-            fake.configure(json!({"faults": {(j - 1).to_string(): fault}, "garbage_flavour": GARBAGE_FLAVOURS[(j + pc.arg as usize) % GARBAGE_FLAVOURS.len()]}));
+            fake.configure(json!({"faults": {(j - 1).to_string(): fault}, "garbage_flavour": GARBAGE_FLAVOURS[(j + pc.arg as usize) % GARBAGE_FLAVOURS.len()], "trunc_flavour": (j + pc.arg as usize / 4) % 2}));
             let out = repobin::run_cli(&bin, &args, Duration::from_secs(60));
             if out.timed_out {
                 eprintln!("CLI timed out: fault {} at {} of {} args {:?} log {:?}", fault, j, k, args, fake.read_log());
